@@ -31,6 +31,7 @@ def run(ctx):
     for k, (mode, srt) in enumerate([((False, ''), '-'), ((False, 'clean'), '0'), ((False, ''), '1')]):
         worlds.append(cw.render('c09-big-%d' % k, cw.big_clean_spec(g, mode, srt), ORACLES))
     worlds += [cw.render('c09-tie-%d' % k, sp, ORACLES) for k, sp in enumerate(cw.tie_specs())]
+    worlds += [cw.render('c09-eol-%d' % k, sp, ORACLES) for k, sp in enumerate(cw.eol_specs())]
     worlds += cw.junk_worlds('c09')
     worlds += cw.extra_worlds('c09', g, ctx.tier, ORACLES)
     run_suite(ctx, 'clean.C09', worlds, known=known, chunk=200)
